@@ -41,6 +41,13 @@ LOOKUPS = [
     {"k": "open", "path": H("d/../."), "flags": O["PATH"] | O["DIRECTORY"]},
     {"k": "resolve", "path": H("a/../hfile")},
     {"k": "readlink", "path": H("d/../hlink")},
+    # the LAST component is '..' and the lookup does not follow trailing links: whatever special-cases "the last component of a
+    # no-follow lookup" must not special-case away the checks that a '..' needs
+    {"k": "resolve", "path": H("a/b/.."), "nofollow": True},
+    {"k": "resolve", "path": H("a/b/c/../.."), "nofollow": True},
+    {"k": "open", "path": H("a/b/.."), "flags": O["PATH"] | O["NOFOLLOW"] | O["DIRECTORY"]},
+    {"k": "open", "path": H("l/c/.."), "flags": O["RDONLY"] | O["NOFOLLOW"] | O["DIRECTORY"]},
+    {"k": "resolve", "path": H("d/e/.."), "nofollow": True},
 ]
 
 
@@ -160,7 +167,7 @@ def run(ck):
         "evaluations": stats["runs"],
         "distinct_nontrivial": len(nontrivial),
         "exhaustive": bool(thorough),
-        "rule": "18 lookups with '..'/symlink components (resolve, resolve_nofollow, open_subpath, readlink) on one scenario tree x %s relevant "
+        "rule": "27 lookups with '..'/symlink components (resolve, resolve_nofollow, open_subpath, readlink) on one scenario tree x %s relevant "
                 "system-call boundaries of the baseline trace x 11 attacker actions (move a/b, a, d/e out of the root; move a/b up; exchange a/b, a, d, d/e, a/b/f "
                 "with links to outside / '../..'; exchange with a sibling; unlink)%s, both backends; non-trivial = the attack was really applied "
                 "before the walk ended; distinct by (lookup, boundary, action, backend, outcome)" % ("all" if thorough else "sampled (420 per lookup)",
